@@ -133,8 +133,10 @@ PLAN = {
         "chunk": 1500,
     },
     "C20": {
-        "mc": [{"name": "artifact", "module": "MC_Artifact.tla", "cfg_quick": "MC_Artifact.cfg", "cfg_thorough": "MC_Artifact_T.cfg"}],
-        "gen": [G("artifact", "Gen_Artifact.cfg", module="Gen_Artifact.tla")],
+        "mc": [{"name": "artifact", "module": "MC_Artifact.tla", "cfg_quick": "MC_Artifact.cfg", "cfg_thorough": "MC_Artifact_T.cfg"},
+               M("store", "MC_Store.tla", "MC_Store.cfg")],
+        "gen": [G("artifact", "Gen_Artifact.cfg", module="Gen_Artifact.tla"), G("store", "Gen_Store.cfg", module="Gen_Store.tla")],
+        "drive": [D("store", 300, 10000)],
         "exhaustive_note": "every add_* sequence of length <= 3 (quick) / <= 4 (thorough) over 4 kinds x 2 payloads (default = empty bytes under every kind, small), and all kind sequences up to length 4 / 6",
         "chunk": 200, "unique_names": True,
     },
@@ -167,5 +169,7 @@ OWN = {
     "C17": {"mps_load": "*"},
     "C18": {"mps_roundtrip": "*"},
     "C19": {"qplib_load": "*"},
-    "C20": {"artifact": "*"},
+    # store_op: C20 owns what its statement covers (what is stored is read back equal, nothing else is disturbed); the
+    # store's overwrite policy (`result`, `step`) is an extension of the specification
+    "C20": {"artifact": "*", "store_op": ["no_panic", "fresh_store", "readable", "stored_content", "others_untouched"]},
 }
